@@ -1,7 +1,13 @@
 #!/usr/bin/env python3
 """Applies each seeded change under /verif/seeded/<name>/patch.diff to /repo, runs the quick check of its property,
 undoes the change, and writes /verif/seeded/results.json. usage: run_seeded.py [name-substring ...]"""
-import json,os,subprocess,sys,time,shutil,tempfile
+import json,os,subprocess,sys,time,shutil,tempfile,atexit
+# the evidence files describe the unchanged tree: keep them out of the way while changed trees are checked
+_ev=tempfile.mkdtemp(prefix='govc-evidence-')
+shutil.copytree('/verif/evidence',_ev+'/evidence')
+def _restore():
+    shutil.rmtree('/verif/evidence',ignore_errors=True); shutil.copytree(_ev+'/evidence','/verif/evidence'); shutil.rmtree(_ev,ignore_errors=True)
+atexit.register(_restore)
 root='/verif/seeded'
 sel=sys.argv[1:]
 res={}
